@@ -311,6 +311,41 @@ class World:
 
     # -- boundary conditions ------------------------------------------------------------
     def _build_bc(self, bc):
+        b, ramp_bc = self._build_case(bc)
+        b = dict(b)
+        for c in bc.get("extra", []):
+            b[c["name"]] = self._custom_boundary(c)
+            if c.get("ramped"):
+                ramp_bc[c["name"]] = b[c["name"]]
+        return b, ramp_bc
+
+    def _custom_boundary(self, c):
+        fld = self.field[c.get("field", 0)]
+        fmesh = fld.region.mesh
+        kw = {}
+        for ax, key in enumerate(("fx", "fy", "fz")):
+            if key in c:
+                v = c[key]
+                if v == "min":
+                    v = float(fmesh.points[:, ax].min())
+                elif v == "max":
+                    v = float(fmesh.points[:, ax].max())
+                kw[key] = v
+        if "skip" in c:
+            kw["skip"] = tuple(c["skip"])
+        if "mode" in c:
+            kw["mode"] = c["mode"]
+        if "points" in c:
+            mask = np.zeros(fmesh.npoints, dtype=bool)
+            sel = c["points"]
+            mask[np.asarray(sel, dtype=int) if isinstance(sel, list) else self._points(sel)] = True
+            kw["mask"] = mask
+        val = c.get("value", 0.0)
+        if isinstance(val, list):
+            val = np.asarray(val, dtype=float)
+        return fem.Boundary(fld, value=val, **kw)
+
+    def _build_case(self, bc):
         f0 = self.field[0]
         case = bc.get("case", "none")
         ramp_bc = {}
@@ -335,8 +370,6 @@ class World:
             lo, hi = pts.min(0), pts.max(0)
             tol = 1e-9 * (hi - lo).max()
             onb = np.any((np.abs(pts - lo) < tol) | (np.abs(pts - hi) < tol), axis=1)
-            if "outer_mask" in bc:
-                onb = np.asarray(bc["outer_mask"], dtype=bool)
             b = {"patch": fem.Boundary(f0, mask=onb, value=np.zeros((int(onb.sum()), f0.dim)))}
             self.patch_points = np.arange(self.mesh.npoints)[onb]
             ramp_bc["patch"] = b["patch"]
@@ -344,26 +377,7 @@ class World:
         if case == "custom":
             b = {}
             for c in bc["list"]:
-                fld = self.field[c.get("field", 0)]
-                kw = {}
-                for ax, key in enumerate(("fx", "fy", "fz")):
-                    if key in c:
-                        v = c[key]
-                        if v == "min":
-                            v = float(self.mesh.points[:, ax].min())
-                        elif v == "max":
-                            v = float(self.mesh.points[:, ax].max())
-                        kw[key] = v
-                if "skip" in c:
-                    kw["skip"] = tuple(c["skip"])
-                if "mode" in c:
-                    kw["mode"] = c["mode"]
-                if "points" in c:
-                    mask = np.zeros(self.mesh.npoints, dtype=bool)
-                    mask[self._points(c["points"])] = True
-                    kw["mask"] = mask
-                val = c.get("value", 0.0)
-                b[c["name"]] = fem.Boundary(fld, value=val, **kw)
+                b[c["name"]] = self._custom_boundary(c)
                 if c.get("ramped"):
                     ramp_bc[c["name"]] = b[c["name"]]
             return b, ramp_bc
@@ -467,6 +481,31 @@ class World:
                 s.u = st["u"].copy()
                 s.F = tuple(a.copy() for a in st["F"])
                 res.kinematics = s.F
+
+
+def expected_prescribed(world, step_index):
+    """Independent model of the prescribed values: {global unknown: value} from the public
+    attributes of the step's Boundary objects (dof, value, field) and the container layout
+    (fields laid out consecutively). Later boundaries of the dictionary override earlier."""
+    fields = world.field.fields
+    sizes = [f.values.size for f in fields]
+    starts = np.concatenate([[0], np.cumsum(sizes)[:-1]])
+    out = {}
+    for b in world.steps[step_index].boundaries.values():
+        k = [i for i, f in enumerate(fields) if f is b.field]
+        if len(k) != 1:
+            raise AssertionError("boundary field not in container")
+        start = int(starts[k[0]])
+        v = b.value
+        if isinstance(v, np.ndarray):
+            if v.size != b.dof.size:
+                v = np.broadcast_to(v.reshape(1, -1) if v.ndim == 1 else v, (b.points.size, v.shape[-1]))
+            v = np.asarray(v, dtype=float).ravel()
+        else:
+            v = np.full(b.dof.size, float(v))
+        for d, val in zip(b.dof.ravel(), v):
+            out[start + int(d)] = float(val)
+    return out
 
 
 def fork(world, durable=None, step_index=None, substep=None, umat_wrap=None):
